@@ -38,25 +38,30 @@ def scale (n d : Nat) (e : Int) : Nat × Nat :=
   if 0 ≤ e then (n, d * 2 ^ e.toNat) else (n * 2 ^ (-e).toNat, d)
 
 /-- exponent of the binade of `n/d`, clamped to the subnormal exponent: the `e ≥ -1074` with
-    `2^52 ≤ n/d · 2^(-e) < 2^53` when that `e` is `≥ -1074`, else `-1074` -/
+    `2^52 ≤ n/d · 2^(-e) < 2^53` when that `e` is `≥ -1074`, else `-1074`. `Nat.log2` gives the binade up to one. -/
 def expOf (n d : Nat) : Int :=
   let e1 : Int := (Nat.log2 n : Int) - (Nat.log2 d : Int) - 52
-  let (n1, d1) := scale n d e1
-  let e2 := if n1 / d1 < 2 ^ 52 then e1 - 1 else e1
+  let s := scale n d e1
+  let e2 := if s.1 / s.2 < 2 ^ 52 then e1 - 1 else e1
   max e2 (-1074)
 
-/-- magnitude bits (sign bit clear) of the non-negative rational `n / d` (`d > 0`) rounded to nearest, ties to even;
-    overflow gives the bits of ∞. With `e = expOf n d`, `q = ⌊n/d · 2^(-e)⌉` the pattern is `(e+1074)·2^52 + q`
-    (a subnormal has `e = -1074`, `q < 2^52`; a carry to `q = 2^53` lands in the next binade by itself). -/
+/-- `n2 / d2` rounded to the nearest integer, ties to even -/
+def roundQ (n2 d2 : Nat) : Nat :=
+  let q := n2 / d2
+  let r := n2 % d2
+  if d2 < 2 * r ∨ (2 * r = d2 ∧ q % 2 = 1) then q + 1 else q
+
+/-- overflow gives the bits of ∞ -/
+def clampInf (bits : Nat) : Nat := if infMag ≤ bits then infMag else bits
+
+/-- magnitude bits (sign bit clear) of the non-negative rational `n / d` (`d > 0`) rounded to nearest, ties to even.
+    With `e = expOf n d` and `q = ⌊n/d · 2^(-e)⌉` the pattern is `(e+1074)·2^52 + q` (a subnormal has `e = -1074`,
+    `q < 2^52`; a carry to `q = 2^53` lands in the next binade by itself). -/
 def magOf (n d : Nat) : Nat :=
   if n = 0 then 0 else
   let e := expOf n d
-  let (n2, d2) := scale n d e
-  let q := n2 / d2
-  let r := n2 % d2
-  let q' := if d2 < 2 * r ∨ (2 * r = d2 ∧ q % 2 = 1) then q + 1 else q
-  let bits := (e + 1074).toNat * 2 ^ 52 + q'
-  if infMag ≤ bits then infMag else bits
+  let s := scale n d e
+  clampInf ((e + 1074).toNat * 2 ^ 52 + roundQ s.1 s.2)
 
 /-- the binary64 nearest (ties to even) to `(-1)^neg · n / d` -/
 def roundNE (neg : Bool) (n d : Nat) : F64 :=
